@@ -3,8 +3,12 @@
    through the verif accessors; judged against the FIFO specification (kind 2) and against the model
    AT THE REAL RING SIZE (kind 1).  Concurrent cases: a recorded timed history, decided by the
    verified checkers of Aspects.v (kind 2); the Go twin of the near-linear checks is compared with
-   the Coq one (kind 1).  Constants of util.go are compared with the model's (kind 1). *)
-From VF Require Import Common.Base C05.Model C05.Spec C05.Aspects.
+   the Coq one (kind 1).  Tiny contended histories (<= 12 calls): decided by the verified
+   linearizability checker of Common/Hist.v instantiated with the FIFO specification (kind 2 when not
+   linearizable) and cross-checked against aspects_b on the same history (kind 1 on disagreement; by
+   Proofs_Lin they agree on well-stamped unique-value histories).  Constants of util.go are compared with
+   the model's (kind 1). *)
+From VF Require Import Common.Base C05.Model C05.Spec C05.Aspects C05.Lin.
 Local Open Scope Z_scope.
 
 Definition FUEL : nat := 3.
@@ -35,6 +39,8 @@ Inductive case :=
 | CSeq (variant : nat) (steps : list sstep)
 | CHist (full drained gotwin : bool) (h : history)     (* recorded history; gotwin = verdict of the harness's twin checker *)
 | CTwin (full drained gotwin : bool) (h : history)     (* deliberately corrupted history: only twin against Coq *)
+| CLin (h : history)                                   (* tiny recorded history: lin_check, cross-checked with aspects_b *)
+| CLinX (h : history)                                  (* deliberately corrupted tiny history: only aspects_b against lin_check *)
 | CConst (size line : Z) (remaps : list (Z * Z)).
 
 Definition mstate := (lscq Z * bq)%type.
@@ -130,6 +136,14 @@ Definition check_case (c : case) : nat :=
       let lin := lin_b drained h in
       let em := if full then empty_b h else true in
       if Bool.eqb (lin && em) gotwin then 0%nat else 1%nat
+  | CLin h =>
+      if negb (unique_b h && stamped_b h && distinct_b h) then 1%nat      (* malformed recording *)
+      else
+        let l := fifo_lin_check h in
+        kind_of (Bool.eqb (aspects_b h) l) l
+  | CLinX h =>
+      if negb (unique_b h && stamped_b h && distinct_b h) then 1%nat
+      else if Bool.eqb (aspects_b h) (fifo_lin_check h) then 0%nat else 1%nat
   | CConst size line remaps =>
       if (size =? scqsize) && (line =? cacheline16)
          && forallb (fun p => remap scqsize cacheline16 (fst p) =? snd p) remaps
